@@ -47,13 +47,13 @@ FFI_C_FILES = [
     "mod_cider/cider_coefs.c", "mod_cider/cider_grids.c", "mod_cider/conv_interpolation.c",
     "mod_cider/convolutions.c", "mod_cider/debug_numint.c", "mod_cider/fast_sdmx.c",
     "mod_cider/frac_lapl.c", "mod_cider/model_utils.c", "mod_cider/pbc_tools.c",
-    "mod_cider/sph_harm.c", "mod_cider/spline.c", "fft_wrapper/cider_fft.c",
+    "mod_cider/sph_harm.c", "mod_cider/spline.c", "fft_wrapper/cider_fft.c", "fft_wrapper/cider_mpi_fft.c",
     "xc_utils/libxc_baselines.c", "pwutil/grid_util.c", "pwutil/nldf_fft_core.c",
     "pwutil/nldf_fft_serial.c",
 ]
-# sources that need MPI headers and cannot be parsed in this sandbox; a callee
+# sources that need Python.h (GPAW interface) and cannot be parsed in this sandbox; a callee
 # found only there is reported as "prototype unavailable" (note, counted)
-UNPARSED_C = ["fft_wrapper/cider_mpi_fft.c", "pwutil/nldf_fft_mpi.c", "pwutil/gpaw_interface.c"]
+UNPARSED_C = ["pwutil/nldf_fft_mpi.c", "pwutil/gpaw_interface.c"]
 
 INT32 = {"int", "unsigned int", "unsigned", "signed int", "int32_t", "uint32_t", "short", "unsigned short",
          "char", "signed char", "unsigned char", "uint8_t", "int8_t", "int16_t", "uint16_t", "_Bool", "bool"}
